@@ -76,6 +76,8 @@ class CleanContract(Contract):
         ctx.sig('%s.%s:%s' % (call.cls, call.name, outcome))
         if exc is not None:
             ctx.nontriv((call.cls, call.name, outcome, tuple(type(a).__name__ for a in call.args)))
+            if len(ctx.samples) < 10:
+                ctx.sample({'call': call.describe(), 'raised': repr(exc)[:160]})
             det = {'error': repr(exc)[:300]}
             if isinstance(exc, StepBudgetExceeded):
                 sizes = [len(a) for a in [call.recv] + list(call.args) if isinstance(a, str) or is_ansi(L, a)]
@@ -191,7 +193,9 @@ def hostile_args(rng, ex, L, hg):
     vals = ansi_values(L, ex)
     if not vals:
         return
-    v = rng.choice(vals[-6:])
+    # stay within the stated input bound (64 characters) most of the time: the step budget claim is about those
+    short = [x for x in vals[-8:] if len(x.base_str) <= BOUND_LEN]
+    v = rng.choice(short) if short and rng.random() < 0.9 else rng.choice(vals[-6:])
     ri = [i for i, p in enumerate(ex.pool) if p is v][0]
     n = len(v.base_str)
     mut = isinstance(v, L.AnsiString)
